@@ -10,7 +10,7 @@ from .. import gen
 from ..oracles import vk
 from ..scripted_rng import Scripted
 
-RULE = ("von Karman variant: nx 2..40 odd and even, n_columns 1..4, pixel scale [0.01,1], r0 [0.05,1], L0/pixel in [5,1e5]; "
+RULE = ("von Karman variant: nx 2..40 odd and even, n_columns 1..4, pixel scale [0.01,1], r0 [0.05,1], L0/pixel in [5,1e7]; "
         "Fried variant: requested nx 2..40 (internal 2^n+1, requested != internal), stencil_length_factor 1..4. The effective "
         "linear map of a row step is recovered black-box through the public behaviour with an injected scripted Generator "
         "(unit impulse in every working pixel with zero innovation -> column of M; zero screen with innovation e_k -> "
@@ -18,7 +18,7 @@ RULE = ("von Karman variant: nx 2..40 odd and even, n_columns 1..4, pixel scale 
         "Construction failures with the documented LinAlgError are rejected by construction and counted. Non-trivial: "
         "VK n_columns>=2 and nx>=4; Fried requested != internal size or stencil_length_factor>=2. Distinct = canonical JSON.")
 ASSUMPTIONS = ["pixel (i, j) of the working array sits at (i, j) * pixel_scale, the new row at row -1",
-               "tolerance = 8 eps cond(Cov(Z,Z)) (1+|A|_inf) relative to B(0): what a backward-stable explicit inverse in double precision leaves (measured 0.15 in these units); L0/pixel up to 1e5",
+               "tolerance = 8 eps cond(Cov(Z,Z)) (1+|A|_inf) relative to B(0): what a backward-stable explicit inverse in double precision leaves (measured 0.15 in these units); L0/pixel up to 1e7",
                "the private attribute _scrn is assigned to set screen content (only private name used)"]
 
 
@@ -68,7 +68,7 @@ def sigma(pos_a, pos_b, r0, L0):
 
 
 # outer scale in pixels: the code imposes no limit other than refusing (LinAlgError) what it cannot factorise
-RATIO = st.one_of(gen.logfloat(5.0, 1000.0), gen.logfloat(1000.0, 1e5))
+RATIO = st.one_of(gen.logfloat(5.0, 1000.0), gen.logfloat(1000.0, 1e5), gen.logfloat(1e5, 1e7))      # 1e6 m is the customary "Kolmogorov" outer scale
 
 
 @st.composite
@@ -180,6 +180,15 @@ def body(ctx, p):
         ctx.residual("excess residual variance J(A)/J_opt - 1 over (1e-6 + evaluation noise)", abs(ex) / (1e-6 + noise), 1.0)
         ctx.require(ex <= 1e-6 + noise, "A is not the minimum-variance predictor: E|X - A Z|^2 exceeds the conditional variance by %.3g (relative; cond(Czz) %.3g, %s nx=%d pixel=%.3g L0=%.3g)" % (ex, cond, kind, p["nx"], ps, L0))
         ctx.require(ex >= -(1e-6 + noise), "harness: residual variance below the optimum by %.3g" % ex)
+        # the innovation covariance B B^T must be the conditional covariance Cov(X|Z) (the Schur complement): the two
+        # identities together say exactly that.  It is (pixel/L0)^(5/3) of the entries of Cov, so it is judged on its own
+        # scale: 0.1 % of it, or what a backward-stable evaluation in double precision can deliver, whichever is larger.
+        Smax = float(np.max(np.abs(Sch)))
+        eB = float(np.max(np.abs(B @ B.T - Sch))) / Smax
+        tolB = 1e-3 + 256 * 2.3e-16 * amp * amp * B0 / Smax
+        ctx.residual("B B^T - Cov(X|Z) over max|Cov(X|Z)|, in units of its tolerance", eB / tolB, 1.0)
+        ctx.require(eB <= tolB, "B B^T is not the conditional covariance of the new row: max error %.3g of max|Cov(X|Z)| (tolerance %.3g; innovation variance / B(0) = %.3g, cond(Czz) %.3g, %s nx=%d pixel=%.3g L0=%.3g)" % (
+            eB, tolB, Smax / B0, cond, kind, p["nx"], ps, L0))
     else:
         ctx.classes["oracle_cholesky_failed"] += 1
     # cross-check with the attributes the anchor mentions
